@@ -94,6 +94,7 @@ def commit (c : Lru) (h : Nat) : Lru × Res :=
   | none => (c, .ioErr)
   | some p =>
     let c0 := { c with temps := c.temps.filter (·.handle != h) }   -- the entry is consumed either way
+    if p.written > c0.cap then (c0, .tooLarge) else      -- fix F-C07-d: an entry larger than the whole cache is refused before anything is evicted for it
     match c0.makeSpace (p.written - p.reserved) with
     | (c1, .ok) =>
       let c2 := { c1 with pendingKeys := eraseFirst c1.pendingKeys p.key,
